@@ -2,14 +2,17 @@
 from __future__ import annotations
 
 import copy
+import hashlib
 import json
+import os
 from fractions import Fraction
+from pathlib import Path
 
 import numpy as np
 
 from harness import core, gen_scheme
 from harness.gen_scheme import _num
-from harness.props import c02
+from harness.props import _c03_steps, c02
 
 PROP = "C03"
 REQUIRED_THEOREMS = [
@@ -39,8 +42,17 @@ REQUIRED_THEOREMS = [
     "point_spec_full_model",
     "fitted_eq_matrix_clp_global_full",
     "legacy_layout_eq_own_of_ascending",
+    "generated_assemble_eq_model",
+    "generated_result_eq_model_unlinked",
+    "generated_result_eq_model_full",
+    "generated_result_eq_model_linked",
+    "generated_results_eq_model",
 ]
 TRUSTED = [
+    "the translator of the result-assembly source text (harness/props/_c03_steps.py, pure ast: EstimationProviderUnlinked/Linked.get_result, "
+    "OptimizationGroup.create_result_data / add_weight_to_result_data, the data loop of Optimizer.create_result) and the interpreter of its "
+    "tables (lean/GlotaranModel/C03Steps.lean: numpy reshape / transpose / DataArray labelling, xarray arithmetic by dimension name, "
+    "argsort); the interpretation of the regenerated tables is proved equal to the hand-written model (generated_*_eq_model)",
     "hand-written model lean/GlotaranModel/C03.lean (on top of C02.lean) of OptimizationGroup.create_result_data, "
     "EstimationProvider{Unlinked,Linked}.get_result, add_weight_to_result_data; tied to the code by differential execution",
     "LAPACK / scipy.optimize.nnls numerics (results compared with the exact rational model at relative 1e-9)",
@@ -64,6 +76,37 @@ RULE = (
 RTOL = 1e-9
 WEIRD_LABELS = [["a", "ab"], ["ab", "a"], ["a", "ab", "abc"], ["a", "bc", "ab", "c"], ["ab", "c", "a", "bc"], ["b", "ab"],
                 ["d 1", "d 10"], ["é", "éé"], ["x", "xx", "xxx"]]
+
+
+LEAN_GEN_STEPS = core.LEAN / "GlotaranModel" / "Generated" / "C03Steps.lean"
+STEP_SOURCES = ["glotaran/optimization/estimation_provider.py", "glotaran/optimization/optimization_group.py",
+                "glotaran/optimization/optimizer.py"]
+
+
+def steps_text(repo=None):
+    """Lean source of Generated/C03Steps.lean, translated from the source TEXT of the repo's working tree (nothing is executed).
+    Never raises: what cannot be read or translated becomes an `untranslatable` node, which makes `generated_*_eq_model` fail to build."""
+    repo = Path(repo or os.environ.get("VERIF_REPO", "/repo"))
+    srcs = []
+    for rel in STEP_SOURCES:
+        try:
+            srcs.append((repo / rel).read_text())
+        except Exception:
+            srcs.append("")
+    return _c03_steps.translate(*srcs)
+
+
+def generate(ck):
+    text = steps_text()
+    if not LEAN_GEN_STEPS.exists() or LEAN_GEN_STEPS.read_text() != text:
+        LEAN_GEN_STEPS.parent.mkdir(parents=True, exist_ok=True)
+        LEAN_GEN_STEPS.write_text(text)
+    ck.extra["step_tables"] = {"untranslatable": text.count(".untranslatable"),
+                               "statements": sum(1 for l in text.splitlines() if "act :=" in l)}
+    return [{"table": "Steps(C03): get_result of both estimation providers (array expression, dims, coords per written variable; the linked "
+                      "loop: membership guard, collected lists, argsort re-ordering), create_result_data / add_weight_to_result_data as "
+                      "statement lists (variable / attribute written, expression, guards, order), the data loop of Optimizer.create_result",
+             "source": ", ".join(STEP_SOURCES), "sha1": hashlib.sha1(text.encode()).hexdigest()}]
 
 
 def run_real(spec):
